@@ -125,6 +125,8 @@ func (o Op) Encode() string {
 		return fmt.Sprintf("STOP %d %d %s", o.Signer, o.Owner, locksEnc(o.Locks))
 	case "SWDU":
 		return fmt.Sprintf("SWDU %d", o.Signer)
+	case "SPRM":
+		return fmt.Sprintf("SPRM %d %d", o.Status, o.Mode)
 	case "SWAG":
 		s := fmt.Sprintf("SWAG %d %s %d %s %d %s %d %d %s %s %s %d %s %s %d", o.Signer, o.Tk.enc(), o.Inner, o.Tk2.enc(), o.BetUID, o.Amount,
 			o.SelMkt, o.SelOdds, o.OddsVal, o.Mult, o.Ky.enc(), o.OddsType, o.MainDed, o.SubDed, len(o.AllOdds))
@@ -221,6 +223,8 @@ func ParseOp(line string) Op {
 		}
 	case "SWDU":
 		o.Signer = r.n()
+	case "SPRM": // x/subaccount UpdateParams under the governance authority: wager enabled, deposit enabled
+		o.Status, o.Mode = r.n(), r.n()
 	case "SWAG":
 		o.Signer, o.Tk, o.Inner, o.Tk2, o.BetUID, o.Amount = r.n(), r.tk(), r.n(), r.tk(), r.n(), r.big()
 		o.SelMkt, o.SelOdds, o.OddsVal, o.Mult, o.Ky, o.OddsType = r.n(), r.n(), r.big(), r.big(), r.ky(), r.n()
